@@ -297,6 +297,28 @@ theorem C08_length_tight_b91 (bs : List Nat) (_hb : Bytes bs) :
   simp only [encode, b91Enc, List.length_map]
   omega
 
+/-! ## independence of results (ops `pair` / `seq` / `par`)
+
+The model's `encode`/`decode` are functions of their argument only, so whatever else was encoded or decoded
+in between, every retained encoding decodes to its own input.  Trivial in Lean - it names the hypothesis the
+correspondence checks on the real encoders, whose `[]byte` results could share memory with a recycled
+buffer, the caller's slice or another goroutine's call: `seqLine` (what the harness must print after keeping
+all results alive across all calls) consists of exactly these per-input values. -/
+theorem C08_results_independent (cd : Codec) (h : RoundTrip cd) (ins : List (List Nat))
+    (hb : ∀ a ∈ ins, Bytes a) :
+    (ins.map (encode cd)).map (decode cd) = ins.map some := by
+  rw [List.map_map]
+  exact List.map_congr_left (fun a ha => h a (hb a ha))
+
+/-- the line the model prints for `pair`/`seq`/`par` is determined input by input -/
+theorem C08_seq_line_pointwise (cd : Codec) (ins : List (List Nat)) :
+    seqLine cd ins = " ".intercalate (["E"] ++ ins.map (fun a => toHex (encode cd a)) ++ ["D"] ++
+      ins.map (fun a => decTok cd (encode cd a))) := by
+  simp [seqLine, List.map_map, Function.comp_def]
+
+set_option maxRecDepth 100000 in
+example : seqLine .b128 [[1], [2]] = "E 61be 6261 D 01 02" := by decide
+
 /-! ## non-vacuity: the hypotheses are satisfiable and the functions compute on real inputs -/
 
 set_option maxRecDepth 100000 in
@@ -359,3 +381,5 @@ end SA.Codec
 #print axioms SA.Codec.C08_length_tight_b91
 #print axioms SA.Codec.C08_witness_b192
 #print axioms SA.Codec.C08_partial
+#print axioms SA.Codec.C08_results_independent
+#print axioms SA.Codec.C08_seq_line_pointwise
